@@ -74,13 +74,24 @@ def verify_function(spec, reg):
             if len(hit) != 1:
                 raise SpecError('fragment %r matches %d statements of %s'
                                 % (spec['fragment'], len(hit), spec['qualname']))
-            seg = _ast.get_source_segment(fsrc.src, hit[0])
+            if spec.get('fragment_until'):
+                # a run of consecutive top-level statements: from the located
+                # one to the (last) one that contains the end marker
+                body = fsrc.node.body
+                i0 = body.index(hit[0]) if hit[0] in body else None
+                ends = [k for k, n in enumerate(body) if spec['fragment_until'] in
+                        (_ast.get_source_segment(fsrc.src, n) or '')]
+                if i0 is None or not ends or ends[-1] < i0:
+                    raise SpecError('fragment end marker %r not found after the fragment start in %s'
+                                    % (spec['fragment_until'], spec['qualname']))
+                hit = body[i0:ends[-1] + 1]
+            seg = '\n'.join(_ast.get_source_segment(fsrc.src, h) for h in hit)
             fsrc.dropped.append('FRAGMENT: only lines %d-%d of %s are under contract '
                 '(statement starting %r); the remainder of the function is not verified'
-                % (hit[0].lineno, hit[0].end_lineno, spec['qualname'], spec['fragment'][:50]))
-            fsrc.body = fsrc._drop_block([hit[0]])
+                % (hit[0].lineno, hit[-1].end_lineno, spec['qualname'], spec['fragment'][:50]))
+            fsrc.body = fsrc._drop_block(list(hit))
             fsrc.sha256 = _hl.sha256(seg.encode()).hexdigest()
-            fsrc.lines = (hit[0].lineno, hit[0].end_lineno)
+            fsrc.lines = (hit[0].lineno, hit[-1].end_lineno)
             res.sha256, res.lines = fsrc.sha256, fsrc.lines
             argnames = list(spec['params'])
         else:
